@@ -142,9 +142,9 @@ def run(ctx):
                     a, bb = gx.tags(rv[2]), gx.tags(rv[3])
                     flip = {"Lt": "Gt", "Gt": "Lt", "Le": "Ge", "Ge": "Le", "Eq": "Eq", "Ne": "Ne"}
                     if COMMITTED in a and START in bb and START not in a:
-                        found.append((g, rv[1], st[2]))
+                        found.append((g, rv[1], st[2], bb))
                     elif COMMITTED in bb and START in a and START not in bb:
-                        found.append((g, flip[rv[1]], st[2]))
+                        found.append((g, flip[rv[1]], st[2], a))
         # arms of the TxState switch: an Active arm that yields `true`
         for bi, b in enumerate(g.blocks):
             if b["cl"]:
@@ -160,7 +160,14 @@ def run(ctx):
            what="gc has no comparison between a committed transaction's commit epoch and the minimum active start epoch: "
                 "clean-up can drop write sets that overlapping transactions still need",
            where=gc.loc())
-    for (g, op, ln) in found:
+    for (g, op, ln, start_tags) in found:
+        # the bound is the OLDEST active start epoch: it is aggregated with a minimum, never a maximum
+        mins = sorted(x for x in start_tags if x.startswith("call:") and "min" in x.split("::")[-1].lower())
+        maxs = sorted(x for x in start_tags if x.startswith("call:") and "max" in x.split("::")[-1].lower())
+        ctx.ob("R5", "TransactionManager::gc#oldest-active", not maxs,
+               what="gc compares commit epochs with the MAXIMUM of the active start epochs (%s): the write set of a transaction that "
+                    "committed after an older, still active transaction began is dropped, and that transaction's conflicting commit "
+                    "is then accepted" % maxs, where=g.loc(ln), info=False)
         ctx.ob("R5", "TransactionManager::gc#retention-op", op in ("Lt", "Le"),
                what="gc removes a committed transaction under `commit_epoch %s min_active_start`; only `<`/`<=` keeps every write set an active transaction may conflict with" % op,
                where=g.loc(ln))
